@@ -1441,11 +1441,11 @@ class Food(UnitConversions):
                 (np.array(self.kcals - other.kcals) > 0).any()
                 or (
                     (np.array(self.fat - other.fat) > 0).any()
-                    and self.conversions.exclude_fat
+                    and self.conversions.include_fat
                 )
                 or (
                     (np.array(self.protein - other.protein) > 0).any()
-                    and self.conversions.exclude_protein
+                    and self.conversions.include_protein
                 )
             )
 
@@ -1487,11 +1487,11 @@ class Food(UnitConversions):
                 (np.array(self.kcals - other.kcals) < 0).any()
                 or (
                     (np.array(self.fat - other.fat) < 0).any()
-                    and self.conversions.exclude_fat
+                    and self.conversions.include_fat
                 )
                 or (
                     (np.array(self.protein - other.protein) < 0).any()
-                    and self.conversions.exclude_protein
+                    and self.conversions.include_protein
                 )
             )
 
